@@ -10,7 +10,6 @@ import (
 	"fmt"
 	"os"
 	"sort"
-	"strings"
 
 	"mellium.im/xmpp/jid"
 	"mellium.im/xmpp/stanza"
@@ -1034,5 +1033,4 @@ func main() {
 	res.CaseFiles = append(res.CaseFiles, x.cf.Write(o.Out, 1500)...)
 	res.Extra["model_cases"] = x.cf.Len()
 	res.Write(o.Out)
-	_ = strings.TrimSpace
 }
